@@ -52,13 +52,13 @@ def run_c05(exe, tier, seed, eval_bytes):
     r = random.Random(seed * 101 + 3)
     sweep = []
     for d in range(1, len(names)):
-        for k in range(8 if tier == "quick" else 80):
+        for k in range(5 if tier == "quick" else 50):
             sweep.append({"tape": r.randbytes(r.choice([8, 60, 300, 1200])), "defect": d, "n": r.choice([1, 2, 4]),
                           "sched": None if k % 3 else "serial:%d:pct:2:400" % r.randrange(10**6),
                           "ing": None if k % 4 else r.choice([4, 64, 4096])})
     s1, f1 = core.pmap_cases(ev, sweep)
     # (b) Hypothesis search over tapes
-    n = 1500 if tier == "quick" else 40000
+    n = 800 if tier == "quick" else 12000
     s2, f2 = core.hyp_search(defect_case_strategy, ev, n, seed + 7)
     s1.merge(s2)
     return s1, f1 + f2
